@@ -6,7 +6,9 @@ import (
 	"fmt"
 	"io"
 	"math"
+	"io/ioutil"
 	"os"
+	"path/filepath"
 	"strings"
 
 	"github.com/tyler-sommer/stick"
@@ -136,6 +138,10 @@ func (r *recorder) register(env *stick.Env, twigEnv bool) {
 		r.cb("filter", "up", ctx, append([]stick.Value{val}, args...))
 		return asciiUpper(stick.CoerceString(val))
 	}
+	env.Filters["mark"] = func(ctx stick.Context, val stick.Value, args ...stick.Value) stick.Value {
+		r.cb("filter", "mark", ctx, append([]stick.Value{val}, args...))
+		return stick.NewSafeValue(val, "html")
+	}
 	env.Filters["wrap"] = func(ctx stick.Context, val stick.Value, args ...stick.Value) stick.Value {
 		r.cb("filter", "wrap", ctx, append([]stick.Value{val}, args...))
 		w := "|"
@@ -179,7 +185,42 @@ type renderCase struct {
 	Fault  struct{ Write, Load int } `json:"fault"`
 	Safe   bool                      `json:"safe"`
 	NoLog  bool                      `json:"nolog"`
+	Loader string                    `json:"loader"` // "" recording loader | "memory" | "fs": the library's own loaders
 	Inline bool                      `json:"inline"` // execute the entry template\'s source through the default StringLoader
+}
+
+// makeLoader returns the loader a case asks for: "" the recording loader (the default), "memory" stick.MemoryLoader, "fs"
+// stick.FilesystemLoader on a scratch directory holding the sources (names that cannot be file names are left out). The
+// second result removes the scratch directory.
+func makeLoader(kind string, srcs map[string][]byte, rec *recorder) (stick.Loader, func(), error) {
+	switch kind {
+	case "", "rec":
+		return rec, func() {}, nil
+	case "memory":
+		m := map[string]string{}
+		for n, s := range srcs {
+			m[n] = string(s)
+		}
+		return &stick.MemoryLoader{Templates: m}, func() {}, nil
+	case "fs":
+		dir, err := ioutil.TempDir("", "verif-fs-")
+		if err != nil {
+			return nil, nil, err
+		}
+		for n, s := range srcs {
+			if n == "" || strings.HasSuffix(n, "/") || strings.Contains(n, "\x00") {
+				continue
+			}
+			p := filepath.Join(dir, n)
+			if !strings.HasPrefix(p, dir+string(os.PathSeparator)) {
+				continue
+			}
+			os.MkdirAll(filepath.Dir(p), 0755)
+			ioutil.WriteFile(p, s, 0644)
+		}
+		return stick.NewFilesystemLoader(dir), func() { os.RemoveAll(dir) }, nil
+	}
+	return nil, nil, fmt.Errorf("unknown loader %q", kind)
 }
 
 func buildSources(c *renderCase) (map[string][]byte, error) {
@@ -253,6 +294,14 @@ func init() {
 		rec := &recorder{srcs: srcs, writeFail: c.Fault.Write, loadFail: c.Fault.Load, failedAt: -1}
 		var env *stick.Env
 		var loader stick.Loader = rec
+		if c.Loader != "" {
+			l2, cleanup, err := makeLoader(c.Loader, srcs, rec)
+			if err != nil {
+				return nil, err
+			}
+			defer cleanup()
+			loader = l2
+		}
 		entry := c.Entry
 		if c.Inline {
 			loader = nil
